@@ -3,11 +3,35 @@
    (vertex on the closed segment; properly crossed -- or end-touched -- edge directed so that q is not on its right; collinear
    overlapping edge pointing in the direction of travel), the output is complete (each vertex on the segment, each properly crossed
    edge and each overlapped edge exactly once, nothing else) and the parameters along the line are non-decreasing.
-   The iterator itself is not modelled; its outputs are decided per query. *)
+   The iterator is modelled in Tri/LineIter.v (index-exact correspondence with the implementation per query, Check/RunModel.v); for the model,
+   on every well-formed counter-clockwise state with distinct positions and a correct start: every item is valid, the items are ordered, no item
+   occurs twice (Tri/LineIterProofs.v).  Completeness of the model's output is decided per query, not proved. *)
 From Coq Require Import ZArith List Bool Arith.
-From SpadeV Require Import Geom.Pred Obs.State Obs.Spec Obs.LineSpec Query.ViewProp Query.ViewProofs.
+From SpadeV Require Import Geom.Pred Obs.State Obs.Spec Obs.SpecProp Obs.LineSpec Query.ViewProp Query.ViewProofs
+  Dcel.Raw Dcel.WfCore Tri.LineIter Tri.LineIterProofs.
 
 Theorem C17_checker_is_spec : forall s pts p q l, linespec_b s pts p q l = true <-> LineSpec s pts p q l.
 Proof. exact linespec_b_spec. Qed.
 
 Print Assumptions C17_checker_is_spec.
+
+Theorem C17_model_sound : forall pts d a b fuel st l,
+  DWf d -> FacesCcw (obs_of_dcel d) pts -> PositionsDistinct (obs_of_dcel d) pts ->
+  StartSound pts d a st ->
+  (match st with LsOutside _ => HullConvex pts d \/ HullChain pts d | _ => True end) ->
+  line_iter pts fuel d a b st = Some l ->
+  (forall it, In it l -> ItemValid (obs_of_dcel d) pts a b it) /\ Ordered (obs_of_dcel d) pts a b l /\ NoDup l.
+Proof. exact line_iter_sound_spec. Qed.
+
+Print Assumptions C17_model_sound.
+
+(* on a well-formed state the iterator model never fails: no assertion / panic of the code is reached, the rotation around a vertex terminates *)
+Theorem C17_model_total : forall pts d a b fuel st,
+  DWf d -> FacesCcw (obs_of_dcel d) pts -> PositionsDistinct (obs_of_dcel d) pts ->
+  StartSound pts d a st ->
+  (match st with LsOutside _ => HullConvex pts d | _ => True end) ->
+  2 * num_directed_edges d + Raw.num_vertices d <= fuel ->
+  exists l, line_iter pts fuel d a b st = Some l.
+Proof. exact line_iter_total. Qed.
+
+Print Assumptions C17_model_total.
